@@ -161,11 +161,15 @@ def partChanged (k : Val) (old new : List (Val × Val)) : Bool :=
 
 /-- C16, rebuild reason: when `diffEnv` reports two environment dicts as changed, the reason it shows names
 exactly the parts (keys of `functionEnvKeys`, in that order) whose values differ, joined as
-"a", "a and b" or "a, b, and c", followed by " changed". -/
+"a", "a and b" or "a, b, and c", followed by " changed"; and when they differ only in a part that is not one of
+`functionEnvKeys` (a record written by another version) the reason is the generic "environment changed" — with
+the diff (the repair of D28; the code used to panic there). -/
 theorem C16_reason (old new : List (Val × Val)) (ho : KeysDistinct old) (hn : KeysDistinct new)
     (r : String) (d : VDiff) (h : diffEnv (some (.dict old)) false (.dict new) = .changed r d) :
-    ∃ rs, joinReasons (functionEnvKeys.filter fun k => partChanged (.str k.toUTF8.toList) old new) = .ok rs ∧
-      r = rs ++ " changed" := by
+    ((functionEnvKeys.filter fun k => partChanged (.str k.toUTF8.toList) old new) = [] ∧ r = "environment changed") ∨
+    ((functionEnvKeys.filter fun k => partChanged (.str k.toUTF8.toList) old new) ≠ [] ∧
+     ∃ rs, joinReasons (functionEnvKeys.filter fun k => partChanged (.str k.toUTF8.toList) old new) = .ok rs ∧
+      r = rs ++ " changed") := by
   have hE : envDepth = (envDepth - 1) + 1 := by decide
   unfold diffEnv at h
   simp only [Bool.false_eq_true, ↓reduceIte] at h
@@ -213,17 +217,23 @@ theorem C16_reason (old new : List (Val × Val)) (ho : KeysDistinct old) (hn : K
               simp only [e2, Option.isSome_some]
         rw [hfilter] at h
         split at h
-        · rename_i rs hj
+        · rename_i hnil
           simp only [EnvResult.changed.injEq] at h
-          exact ⟨rs, hj, h.1.symm⟩
-        · cases h
+          exact Or.inl ⟨hnil, h.1.symm⟩
+        · rename_i hne
+          split at h
+          · rename_i rs hj
+            simp only [EnvResult.changed.injEq] at h
+            exact Or.inr ⟨fun e => hne e, rs, hj, h.1.symm⟩
+          · cases h
     · cases h
 
 /-- C16, rebuild reason, the remaining outcomes of `diffEnv` (after the repair of D25): a target without a record
 has never been run; equal encodings mean up to date, and nothing else does; when the encodings differ but the
 two environments compare equal — no part differs by `==`, yet the function can tell them apart: `1` and `1.0`,
 `0.0` and `-0.0`, one shared list and two equal lists — or cannot be compared within the depth limit, the
-reason is the generic "environment changed" with no diff; and a reason naming parts always names at least one. -/
+reason is the generic "environment changed" with no diff; a reason that is shown with a diff comes with a mapping
+diff, and if that diff touches none of the `functionEnvKeys` the reason is the generic one (with the diff). -/
 theorem C16_reason_cases (old new : Val) :
     diffEnv none false new = .neverRun ∧
     diffEnv (some old) true new = .same ∧
@@ -233,7 +243,7 @@ theorem C16_reason_cases (old new : Val) :
     (∀ r d, diffEnv (some old) false new = .changed r d →
       equalDepth envDepth old new = .ok false ∧
       ∃ o n edits, d = .mapping o n edits ∧
-        (functionEnvKeys.filter fun k => hasEdit (.str k.toUTF8.toList) edits) ≠ []) := by
+        ((functionEnvKeys.filter fun k => hasEdit (.str k.toUTF8.toList) edits) = [] → r = "environment changed")) := by
   refine ⟨rfl, rfl, ?_, ?_, ?_, ?_⟩
   · intro se h
     cases se with
@@ -257,13 +267,13 @@ theorem C16_reason_cases (old new : Val) :
         · cases h
         · rename_i o n edits _
           split at h
-          · rename_i rs hj
-            simp only [EnvResult.changed.injEq] at h
-            refine ⟨o, n, edits, h.2.symm, ?_⟩
-            intro hnil
-            rw [hnil] at hj
-            simp [joinReasons] at hj
-          · cases h
+          · simp only [EnvResult.changed.injEq] at h
+            exact ⟨o, n, edits, h.2.symm, fun _ => h.1.symm⟩
+          · rename_i hne
+            split at h
+            · simp only [EnvResult.changed.injEq] at h
+              exact ⟨o, n, edits, h.2.symm, fun e => absurd e (fun e' => hne e')⟩
+            · cases h
         · cases h
       · cases h
       · cases h
